@@ -44,6 +44,10 @@ type Case struct {
 	Balancer string `json:"balancer"`
 	Plans    []Plan `json:"plans"`
 	ReqLen   int    `json:"req_len"`
+	// Route: "" = /olla/proxy/; "anthropic" = /olla/anthropic/v1/messages in a mixed deployment:
+	// endpoint 0 speaks Anthropic natively (vllm, so the request is passed through), the others are
+	// openai-compatible
+	Route string `json:"route,omitempty"`
 }
 
 var (
@@ -102,7 +106,7 @@ func genPlan(t *rapid.T) Plan {
 			p.K = p.Total - 1
 		}
 		// stalls cost the read timeout in real time: keep them around 10%
-		p.Fault = rapid.SampledFrom([]string{"close", "close", "close", "close", "close", "rst", "rst", "rst", "rst", "rst", "rst", "rst", "rst", "stall"}).Draw(t, "fault")
+		p.Fault = rapid.SampledFrom([]string{"close", "close", "close", "close", "close", "rst", "rst", "rst", "rst", "rst", "rst", "rst", "rst", "stall", "resume"}).Draw(t, "fault")
 		if p.Framing == "close" && p.Fault == "close" {
 			// a close-delimited body that is closed early is simply a shorter complete body
 			p.Framing = "cl"
@@ -134,6 +138,9 @@ func genCase(t *rapid.T) Case {
 	for i := 0; i < n; i++ {
 		c.Plans = append(c.Plans, genPlan(t))
 	}
+	if n >= 2 && rapid.IntRange(0, 4).Draw(t, "route") == 0 {
+		c.Route = "anthropic"
+	}
 	return c
 }
 
@@ -162,6 +169,29 @@ func (p Plan) script(id string) backend.Script {
 		pieces = append(pieces, rest)
 		return backend.Parts(p.Status, hs, pieces, 5, p.Framing, id)
 	case "cut":
+		if p.Fault == "resume" {
+			// goes silent for longer than the read timeout after the headers / after k bytes, then
+			// carries on and finishes its answer
+			sc := backend.Script{Steps: []backend.Step{backend.HeadStep(p.Status, hs, p.Total, p.Framing, id)}}
+			if p.K > 0 {
+				sc.Steps = append(sc.Steps, backend.Step{Op: "body", N: p.K, Chunked: p.Framing == "chunked"})
+			}
+			sc.Steps = append(sc.Steps, backend.Step{Op: "pause", Ms: int((readTimeout + 400*time.Millisecond).Milliseconds())})
+			rest := p.Total - p.K
+			for i := 0; i < 3 && rest > 0; i++ {
+				n := rest / (3 - i)
+				if n == 0 {
+					n = rest
+				}
+				sc.Steps = append(sc.Steps, backend.Step{Op: "body", N: n, Chunked: p.Framing == "chunked"}, backend.Step{Op: "pause", Ms: 20})
+				rest -= n
+			}
+			if p.Framing == "chunked" {
+				sc.Steps = append(sc.Steps, backend.Step{Op: "endchunks"})
+			}
+			sc.Steps = append(sc.Steps, backend.Step{Op: "close"})
+			return sc
+		}
 		return backend.FaultAfter(p.Status, hs, p.Total, p.K, p.Fault, p.Framing, id, int((readTimeout + 2500*time.Millisecond).Milliseconds()))
 	case "truncchunk":
 		s := backend.Script{Steps: []backend.Step{backend.HeadStep(p.Status, hs, p.Total, "chunked", id)}}
@@ -279,11 +309,22 @@ func runCase(c Case) []ev.Violation {
 		if p.Kind == "refuse" {
 			be = -1
 		}
-		eps = append(eps, rig.EP{Backend: be, Priority: 300 - 100*i})
+		ty := ""
+		if c.Route == "anthropic" && i == 0 {
+			ty = "vllm"
+		}
+		eps = append(eps, rig.EP{Backend: be, Priority: 300 - 100*i, Type: ty})
 	}
-	if _, _, err := r.Setup(eps); err != nil {
+	_, urls, err := r.Setup(eps)
+	if err != nil {
 		rec.Inconclusive("setup: " + err.Error())
 		return nil
+	}
+	if c.Route == "anthropic" {
+		for _, u := range urls {
+			_ = r.S.RegisterModels(u, "vm-c02")
+		}
+		rec.Class("route=anthropic-mixed-deployment")
 	}
 	for i, p := range c.Plans {
 		if p.Kind != "refuse" {
@@ -296,7 +337,16 @@ func runCase(c Case) []ev.Violation {
 	if len(body) > 8 {
 		body[len(body)-2] = '"'
 	}
-	req := rawclient.Request("POST", "/olla/proxy/v1/chat/completions",
+	target := "/olla/proxy/v1/chat/completions"
+	if c.Route == "anthropic" {
+		target = "/olla/anthropic/v1/messages"
+		pad := ""
+		if c.ReqLen > 120 {
+			pad = strings.Repeat("x", c.ReqLen-120)
+		}
+		body = []byte(`{"model":"vm-c02","max_tokens":16,"messages":[{"role":"user","content":"hi ` + pad + `"}]}`)
+	}
+	req := rawclient.Request("POST", target,
 		[][2]string{{"Content-Type", "application/json"}, {"Connection", "close"}}, body, nil)
 	resp, err := rawclient.Do(r.S.Addr, req, readTimeout+15*time.Second)
 	rec.Eval(1)
@@ -350,6 +400,35 @@ func runCase(c Case) []ev.Violation {
 		rec.Class("nontrivial")
 	}
 
+	if c.Route == "anthropic" {
+		// the native endpoint's attempt is a passthrough and is judged like any other attempt; once an
+		// openai-compatible endpoint was contacted the answer is a translation (not a transcript), and
+		// only the order of events is judged: no dispatch after the native attempt's response had started
+		later := -1
+		var nat *tr
+		for i := range trs {
+			if trs[i].idx == 0 && nat == nil {
+				nat = &trs[i]
+			}
+			if trs[i].idx > 0 && nat != nil && later < 0 {
+				later = trs[i].idx
+			}
+		}
+		other := false
+		for _, t := range trs {
+			if t.idx > 0 {
+				other = true
+			}
+		}
+		if other {
+			started := nat != nil && len(nat.head) > 0 && (len(resp.Header("X-Backend-Id")) > 0 || bytes.Contains(resp.Body, []byte("["+fmt.Sprintf("%-5.5s", r.Raw[0].ID)+"@")))
+			if later >= 0 && started {
+				bad(fmt.Sprintf("redispatch-after-response-started/%s/anthropic-passthrough-then-translation", c.Engine), "backend %d was sent the request after the native backend's passthrough response had started to reach the client (status %d, %d body bytes at the client, the native backend wrote head=%dB body=%dB); plans %+v", later, resp.Status, len(resp.Body), len(nat.head), len(nat.body), c.Plans)
+			}
+			rec.Class("anthropic/answer-involves-translation")
+			return vs
+		}
+	}
 	// at most once per backend
 	count := map[int]int{}
 	for _, t := range trs {
@@ -498,8 +577,20 @@ func enumerate(t *testing.T) {
 					}
 					c := Case{Engine: e, Profile: pr, Balancer: b, Plans: []Plan{sh, okPlan}, ReqLen: 64}
 					ev.Direct(rec, "fault", c, runCase)
+					if pr == "auto" && b == "priority" {
+						c.Route = "anthropic"
+						ev.Direct(rec, "fault", c, runCase)
+					}
 				}
 			}
+		}
+	}
+	// a backend that falls silent for longer than the read timeout and then carries on
+	for _, e := range engines {
+		for _, k := range []int{0, 100} {
+			c := Case{Engine: e, Profile: "auto", Balancer: "priority", ReqLen: 64,
+				Plans: []Plan{{Kind: "cut", Status: 200, CT: "text/event-stream", Total: 4096, Framing: "chunked", K: k, Fault: "resume"}, okPlan}}
+			ev.Direct(rec, "fault", c, runCase)
 		}
 	}
 	// one stall per engine (costs the read timeout)
@@ -512,7 +603,7 @@ func enumerate(t *testing.T) {
 
 func TestC02(t *testing.T) {
 	defer rig.StopAll()
-	rec.SetRule("each case = 1..3 scripted raw-TCP backends (refuse, close/reset before headers, garbage, complete, fault after headers / after k body bytes with close|rst|stall, truncated chunked, short Content-Length; bodies 0..256 KiB self-identifying; 0..6 random headers) x engine x proxy profile x balancer, one POST through the full stack read byte-for-byte; single-fault shapes are enumerated in front of a healthy second backend, combinations are rapid-generated. Sub-check 'concurrent': 2..32 clients, each sending 4..30 requests back to back, receive complete self-identifying bodies (1 KB..2 MiB, needing many reads) from 2..3 backends; each response must be byte for byte the body of the backend its X-Backend-Id names. non-trivial = >=2 endpoints and the first-dispatched backend fails after writing its status line; distinct by (engine, profile, balancer, fault/framing tuple, first backend)")
+	rec.SetRule("each case = 1..3 scripted raw-TCP backends (refuse, close/reset before headers, garbage, complete, fault after headers / after k body bytes with close|rst|stall|silence longer than the read timeout followed by the rest of the answer, truncated chunked, short Content-Length; bodies 0..256 KiB self-identifying; 0..6 random headers) x engine x proxy profile x balancer, one POST through the full stack read byte-for-byte; single-fault shapes are enumerated in front of a healthy second backend (also on the Anthropic route of a mixed deployment: a native endpoint that is passed through to, in front of an openai-compatible one), combinations are rapid-generated. Sub-check 'concurrent': 2..32 clients, each sending 4..30 requests back to back, receive complete self-identifying bodies (1 KB..2 MiB, needing many reads) from 2..3 backends; each response must be byte for byte the body of the backend its X-Backend-Id names. non-trivial = >=2 endpoints and the first-dispatched backend fails after writing its status line; distinct by (engine, profile, balancer, fault/framing tuple, first backend)")
 	rec.Assume("a truncated response delivered as a prefix of one attempt is allowed; only mixing, duplication or alteration is a violation")
 	if ev.Replay(t, rec, "fault", runCase) || ev.Replay(t, rec, "concurrent", runConc) {
 		return
